@@ -696,7 +696,16 @@ std::string EdgeEnv::LookupVariable(StringPiece var) {
   // In practice, variables defined on rules never use another rule variable.
   // For performance, only start checking for cycles after the first lookup.
   recursive_ = true;
-  std::string result = edge_->env_->LookupWithFallback(var, eval, this);
+  // Lookup order: build-level bindings, then the rule, then the enclosing
+  // scopes.  Without build-level bindings env_ is the enclosing file scope
+  // itself, whose own bindings must not take precedence over the rule's.
+  std::string result;
+  if (edge_->has_own_env_)
+    result = edge_->env_->LookupWithFallback(var, eval, this);
+  else if (eval)
+    result = eval->Evaluate(this);
+  else
+    result = edge_->env_->LookupVariable(var);
   if (record_varname)
     lookups_.pop_back();
   return result;
